@@ -76,6 +76,11 @@ fn run_exec<C: CellType, E: Executable<C>>(case: &Case, world: *mut World, exec:
     let output: Option<Box<dyn std::io::Write>> =
         if case.fault == Fault::NoWriter { None } else { Some(Box::new(SimOut { world })) };
     let mut ctx = Context::<C>::new(input, output);
+    // the zone covers execution only: compilation is C13's business, and the boxes
+    // above belong to the harness
+    if case.alloc.guard {
+        galloc::zone_enter(case.alloc.seed, case.alloc.reuse, case.alloc.fail_at);
+    }
     let mut pregrown = None;
     if let Some((a, b)) = case.pregrow {
         ctx.memory.make_accessible(-(a as isize), b as isize);
@@ -92,7 +97,7 @@ fn run_exec<C: CellType, E: Executable<C>>(case: &Case, world: *mut World, exec:
     }));
     let budget_left = ctx.budget as u64;
     let survived = match pregrown {
-        Some((base, _)) if case.alloc.guard => {
+        Some((base, _)) if case.alloc.guard && base >= galloc::ARENA_BASE && base < galloc::ARENA_BASE + galloc::ARENA_SIZE => {
             Some(galloc::all_blocks().iter().any(|&(u, _, freed)| u == base && !freed))
         }
         _ => None,
@@ -103,6 +108,9 @@ fn run_exec<C: CellType, E: Executable<C>>(case: &Case, world: *mut World, exec:
         Err(p) => ExecResult::Panic(galloc::suspend(|| panic_msg(p))),
     };
     drop(ctx);
+    if case.alloc.guard {
+        galloc::zone_exit();
+    }
     RunInfo { result: res, budget_left, pregrown, survived }
 }
 
@@ -139,7 +147,6 @@ pub fn execute(case: &Case) -> Outcome {
     set_hash_seed(case.hash_seed);
     if case.alloc.guard {
         galloc::reset();
-        galloc::zone_enter(case.alloc.seed, case.alloc.reuse, case.alloc.fail_at);
     }
     let info = match case.width {
         8 => run_typed::<u8>(case, wp),
@@ -148,7 +155,6 @@ pub fn execute(case: &Case) -> Outcome {
         _ => run_typed::<u64>(case, wp),
     };
     let (alloc, blocks) = if case.alloc.guard {
-        galloc::zone_exit();
         (galloc::stats(), galloc::all_blocks())
     } else {
         (galloc::Stats::default(), Vec::new())
